@@ -926,6 +926,11 @@ def gen_case_c31(seed, tier):
     rng = Rng(seed)
     spec = rs.gen_repo(rng, n_targets=(3, 9), n_pkgs=(1, 3), dep_density=0.6, use_defs_p=0.2, max_fanin=4, allow_filegroup=rng.chance(0.5))
     spec["config"]["xattrs"] = rng.chance(0.8)
+    if rng.chance(0.5):
+        # one directory cache for all invocations (they are the same checkout, so the per-target lock
+        # serialises their stores of a key; what races is one invocation restoring while another reads)
+        spec["config"]["cache"] = "@CACHE@"
+        spec["config"]["dircompress"] = rng.chance(0.3)
     ts = rs.all_targets(spec)
     k = rng.rng(2, 4)
     multi = []
@@ -952,6 +957,9 @@ def exec_case_c31(bindir, case):
     w = hl.World(bindir, "c31")
     try:
         spec = case["spec"]
+        if spec["config"].get("cache") == "@CACHE@":
+            spec = rs.clone(spec)
+            spec["config"]["cache"] = w.sc.path("cache")
         w.write(spec)
         union = []
         for m in case["multi"]:
@@ -963,6 +971,8 @@ def exec_case_c31(bindir, case):
             return out, w.stats, w.sigs
         for j, run in enumerate(case["runs"]):
             shutil.rmtree(os.path.join(w.repo, "plz-out"), ignore_errors=True)
+            if j % 2 == 0:
+                shutil.rmtree(w.sc.path("cache"), ignore_errors=True)   # every other run starts with a cold cache
             if os.path.exists(w.log):
                 os.remove(w.log)
             if run.get("prebuilt"):
